@@ -160,6 +160,14 @@ resp0_ctx_send(void *arg, nni_aio *aio)
 	}
 
 	nni_mtx_lock(&s->mtx);
+	if (ctx->saio != NULL) {
+		// A previous response from this context is still waiting for
+		// its pipe.  We can only track one of them, so reject this
+		// one without disturbing the one that is queued.
+		nni_mtx_unlock(&s->mtx);
+		nni_aio_finish_error(aio, NNG_ESTATE);
+		return;
+	}
 	if (!nni_aio_start(aio, resp0_ctx_cancel_send, ctx)) {
 		nni_mtx_unlock(&s->mtx);
 		return;
